@@ -119,7 +119,7 @@ def replay(pid, path):
     out = os.path.join(w, "replay.ndjson")
     with open(out, "w") as f:
         for e in rp["trace"]:
-            f.write(json.dumps(e) + "\n")
+            f.write(json.dumps(e, separators=(",", ":")) + "\n")
     mod = {"framing": ("Trace_Framing", "Trace_Framing.cfg"), "decode": ("Trace_DecodeDrop", "Trace_DecodeDrop.cfg"),
            "decode-tl": ("Trace_DecodeDrop", "Trace_DecodeDrop.cfg"),
            "wire-sessions": ("Trace_ClusterAuth", "Trace_ClusterAuth.cfg")}[rp.get("family", "framing")]
